@@ -126,7 +126,8 @@ def cmd_run(a):
                 sys.stdout.flush()
         finally:
             shutil.rmtree(d, ignore_errors=True)
-        json.dump(meta, open(mp, 'w'), indent=1)
+        if not a.no_record:
+            json.dump(meta, open(mp, 'w'), indent=1)
     missed = [r for r in rows if r[1] == json.load(open(os.path.join(SEEDED, r[0], 'meta.json')))[
         'property'] and r[2] != 1]
     print('%d runs; target-property misses: %r' % (len(rows), [r[0] for r in missed]))
@@ -147,6 +148,7 @@ def main():
     p.add_argument('--props')
     p.add_argument('--tier', default='quick')
     p.add_argument('--seed', default='1')
+    p.add_argument('--no-record', action='store_true', help='do not update meta.json')
     a = ap.parse_args()
     return cmd_add(a) if a.cmd == 'add' else cmd_run(a)
 
